@@ -52,15 +52,15 @@ type vField struct {
 	termKeys []string // insertion order of freqs (for deterministic native iteration is not needed; informational)
 }
 
-func (s *vField) Name() string                                { return s.name }
-func (s *vField) Value() []byte                               { return s.value }
-func (s *vField) ArrayPositions() []uint64                    { return s.ap }
-func (s *vField) EncodedFieldType() byte                      { return s.typ }
-func (s *vField) Analyze()                                    {}
-func (s *vField) Options() index.FieldIndexingOptions         { return s.options }
-func (s *vField) AnalyzedLength() int                         { return s.length }
-func (s *vField) AnalyzedTokenFrequencies() index.TokenFrequencies { return s.freqs }
-func (s *vField) NumPlainTextBytes() uint64                   { return 0 }
+func (s *vField) Name() string                                                  { return s.name }
+func (s *vField) Value() []byte                                                 { return s.value }
+func (s *vField) ArrayPositions() []uint64                                      { return s.ap }
+func (s *vField) EncodedFieldType() byte                                        { return s.typ }
+func (s *vField) Analyze()                                                      {}
+func (s *vField) Options() index.FieldIndexingOptions                           { return s.options }
+func (s *vField) AnalyzedLength() int                                           { return s.length }
+func (s *vField) AnalyzedTokenFrequencies() index.TokenFrequencies              { return s.freqs }
+func (s *vField) NumPlainTextBytes() uint64                                     { return 0 }
 func (s *vField) Compose(field string, length int, freq index.TokenFrequencies) {}
 
 // vShapeField is a geo-shape field: its encoded shape is an extra doc-value term of the document.
@@ -79,15 +79,15 @@ type vSynField struct {
 	syns  [][]string
 }
 
-func (s *vSynField) Name() string                                { return s.name }
-func (s *vSynField) Value() []byte                               { return nil }
-func (s *vSynField) ArrayPositions() []uint64                    { return nil }
-func (s *vSynField) EncodedFieldType() byte                      { return 0 }
-func (s *vSynField) Analyze()                                    {}
-func (s *vSynField) Options() index.FieldIndexingOptions         { return 0 }
-func (s *vSynField) AnalyzedLength() int                         { return 0 }
+func (s *vSynField) Name() string                                     { return s.name }
+func (s *vSynField) Value() []byte                                    { return nil }
+func (s *vSynField) ArrayPositions() []uint64                         { return nil }
+func (s *vSynField) EncodedFieldType() byte                           { return 0 }
+func (s *vSynField) Analyze()                                         {}
+func (s *vSynField) Options() index.FieldIndexingOptions              { return 0 }
+func (s *vSynField) AnalyzedLength() int                              { return 0 }
 func (s *vSynField) AnalyzedTokenFrequencies() index.TokenFrequencies { return nil }
-func (s *vSynField) NumPlainTextBytes() uint64                   { return 0 }
+func (s *vSynField) NumPlainTextBytes() uint64                        { return 0 }
 func (s *vSynField) IterateSynonyms(visitor func(term string, synonyms []string)) {
 	for i, t := range s.terms {
 		visitor(t, s.syns[i])
